@@ -186,11 +186,12 @@ def build(sc):
     elif shape == "unterminated_trailer":
         if B > 100000:
             B = sc["max_body"] = 500
-        stream = b"POST /x HTTP/1.1\r\nHost: h\r\nTransfer-Encoding: chunked\r\n\r\n3\r\nabc\r\n0\r\nX-T: " + b"t" * (B + 50 + d)
+        head = b"POST /x HTTP/1.1\r\nHost: h\r\nTransfer-Encoding: chunked\r\n\r\n"
+        stream = head + b"3\r\nabc\r\n0\r\nX-T: " + b"t" * (B + 50 + d)
         exp["must_refuse"] = True
         exp["statuses"] = {400, 413}
         exp["no_follower"] = True
-        exp["cross_pos"] = len(stream) - (B + 50 + d) - 17 + B
+        exp["cross_pos"] = len(head) + B  # the raw body bytes reach the limit here
     elif shape in ("long_value_bad_tail", "long_trailer_bad_tail"):
         # a field value of a few dozen visible characters followed by one octet that is not allowed: must be
         # refused quickly (a backtracking pattern needs time exponential in the length)
